@@ -103,11 +103,18 @@ def binding_selftest(ctx, cases, v, sw):
     raise c.ToolError("binding self-test: no suitable accepted case")
 
 
+def driver_args(ctx, binp, adlt, scn, trace, nrand):
+    quick = ctx.quick()
+    return [binp, "--adlt", adlt, "--work", ctx.work, "--scenarios", scn, "--random", str(nrand), "--seed", str(ctx.seed),
+            "--out", trace, "--conns", "12", "--long-max", "120" if quick else "200", "--big", "6000" if quick else "40000"]
+
+
 def check(ctx):
     quick = ctx.quick()
     binp = c.build_harness("c15")
     adlt = c.build_adlt_bin()
     rnd = random.Random(ctx.seed)
+    nrand = 40 if quick else 400
     # (a) model checking of the session model (reply table total and consistent, liveness)
     c.tlc_must_pass(ctx, "model", "Remote.tla", "Remote_quick.cfg" if quick else "Remote_thorough.cfg", timeout=3000)
     if not quick:
@@ -128,10 +135,7 @@ def check(ctx):
             f.write(json.dumps(h) + "\n")
     # (c,d) replay on the real binary + scripted + random long histories
     trace = ctx.path("trace.ndjson")
-    nrand = 40 if quick else 400
-    p = c.run([binp, "--adlt", adlt, "--work", ctx.work, "--scenarios", scn, "--random", str(nrand), "--seed", str(ctx.seed),
-               "--out", trace, "--conns", "12", "--long-max", "120" if quick else "200", "--big", "6000" if quick else "40000"],
-              timeout=3000, check=False)
+    p = c.run(driver_args(ctx, binp, adlt, scn, trace, nrand), timeout=3000, check=False)
     if p.returncode != 0:
         raise c.ToolError("driver failed: " + (p.stdout or "")[-3000:])
     info = json.loads(p.stdout.strip().splitlines()[-1])
@@ -196,12 +200,14 @@ def check(ctx):
             for lab in labels:
                 ctx.known(c.kf_text("C15", lab))
     rej = {r[0]: r for r in v.rejected}
+    ctx.replay_module = ("RemoteTrace.tla", dict(sw))
     for k in sorted(v.violations):
         r = rej.get(k)
         ctx.violation("case %d rejected by RemoteTrace at line %s: %s" % (k, r[1] if r else "?", r[2] if r else "unfinished"),
                       {"case": k, "trace": cases.get(k), "first_unmatched": r[2] if r else None,
                        "server_panics": info["panics"], "server_stderr": info["stderr"],
-                       "how": "bin/check C15 %s with VERIF_SEED=%d; the case's cmd events carry the exact text frames" % (ctx.tier, ctx.seed)})
+                       "how": "bin/check C15 --replay <this file> re-validates the recorded session; the cmd events carry the exact text "
+                              "frames sent; re-run with VERIF_SEED=%d bin/check C15 %s (driver option --only-case %d)" % (ctx.seed, ctx.tier, k)})
     if not ctx.violations:          # tool-level sanity only when there is no verdict to report (never masks a violation)
         if missing:
             raise c.ToolError("vacuity: paths never hit: %s" % missing)
